@@ -64,15 +64,44 @@ def _leaf_factory(Y, M, D, S, op_discr, op_arg):
                 raise Unknown('seconds(non-int)')
             if re.search(r'Datelike>?::(year|month|day)$', p):
                 d = ev(body, e2[2][0], leaf)
+                if isinstance(d, dict) and 'panic' in d:
+                    return d
                 if isinstance(d, dict) and 'y' in d:
+                    if not _valid(d):
+                        return {'panic': 'NaiveDate::from_ymd(%s, %s, %s) is not a calendar date' % (d['y'], d['m'], d['d'])}
                     return d[p.rsplit('::', 1)[1][0]]
                 raise Unknown('component of a non-date')
+            if re.search(r'NaiveDate::(pred|succ)(_opt)?$', p):
+                d = ev(body, e2[2][0], leaf)
+                if isinstance(d, dict) and 'panic' in d:
+                    return d
+                if isinstance(d, dict) and 'y' in d and 'dir' not in d:
+                    if not _valid(d):
+                        return {'panic': 'NaiveDate::from_ymd(%s, %s, %s) is not a calendar date' % (d['y'], d['m'], d['d'])}
+                    import datetime
+                    x = datetime.date(d['y'], d['m'], d['d']) + datetime.timedelta(days=-1 if 'pred' in p else 1)
+                    return {'y': x.year, 'm': x.month, 'd': x.day}
+                raise Unknown('pred / succ of a non-date')
+            mm_ = re.search(r'cmp::(?:Ord>?::)?(min|max)$', p)
+            if mm_ and len(e2[2]) == 2:
+                x, y_ = ev(body, e2[2][0], leaf), ev(body, e2[2][1], leaf)
+                for v_ in (x, y_):
+                    if isinstance(v_, dict) and 'panic' in v_:
+                        return v_
+                if isinstance(x, int) and isinstance(y_, int):
+                    return min(x, y_) if mm_.group(1) == 'min' else max(x, y_)
+                raise Unknown('min / max of non-integers')
             if re.search(r'NaiveDate::from_ymd(_opt)?$', p):
                 y, m, d = (ev(body, a, leaf) for a in e2[2])
+                for v_ in (y, m, d):
+                    if isinstance(v_, dict) and 'panic' in v_:
+                        return v_
                 return {'y': y, 'm': m, 'd': d}
             m = re.search(r'NaiveDate as .*(Add|Sub)<.*(Duration|TimeDelta)>>::(add|sub)$', p)
             if m:
                 d = ev(body, e2[2][0], leaf)
+                if isinstance(d, dict) and 'panic' in d:
+                    return d
                 r = ev(body, e2[2][1], leaf)
                 if isinstance(d, dict) and 'y' in d and isinstance(r, dict) and 'secs' in r:
                     return dict(d, dir=m.group(3), rest=r['secs'])
@@ -83,13 +112,22 @@ def _leaf_factory(Y, M, D, S, op_discr, op_arg):
     return leaf
 
 
+def _valid(d):
+    import datetime
+    try:
+        datetime.date(d['y'], d['m'], d['d'])
+        return True
+    except (ValueError, TypeError):
+        return False
+
+
 _TABLE = {}
 
 
-def calc_cell(ctx, op, M, S):
+def calc_cell(ctx, op, M, S, D=15):
     """evaluated result of DateItem::calculate for one cell, or None when the term is not evaluable / not unique"""
     from ..evalint import feasible_values
-    key = (id(ctx.facts), op, M, S)
+    key = (id(ctx.facts), op, M, S, D)
     if key in _TABLE:
         return _TABLE[key]
     b = ctx.facts.one(CALC)
@@ -101,8 +139,12 @@ def calc_cell(ctx, op, M, S):
     if not adt:
         raise AnchorLost('enum compiler::OperationType not found')
     discr = {v['name']: v['discr'] for v in adt['variants']}
-    leaf = _leaf_factory(2021, M, 15, S, discr[op], 5)
+    leaf = _leaf_factory(2021, M, D, S, discr[op], 5)
     vals = [v for v, _ in feasible_values(b, b.ret_expr(), leaf)]
+    pan = [v for v in vals if isinstance(v, dict) and 'panic' in v]
+    if pan:
+        _TABLE[key] = pan[0]
+        return pan[0]
     dates = []
     for v in vals:
         if isinstance(v, dict) and v not in dates:
@@ -120,27 +162,32 @@ def d1_steps(ctx):
     ctx.rule('D1', 'month / year step tables of DateItem::calculate', floor=4)
     b = ctx.facts.one(CALC)
     ctx.fn(b)
-    Y, D = 2021, 15
+    Y = 2021
     for op in ('Add', 'Sub'):
         sign = 1 if op == 'Add' else -1
         for step in ('year', 'month'):
             classes = {}
             n_ok = 0
             cells = 0
-            for M in range(1, 13):
-                for n in range(1, 13):
-                    S = n * (YEAR_SECS if step == 'year' else MONTH_SECS) + 3 * DAY_SECS
-                    r = calc_cell(ctx, op, M, S)
-                    cells += 1
-                    if r is None:
-                        classes.setdefault('not-extractable', []).append((M, n, None))
-                        continue
-                    got = (r['y'], r['m'], r['d'])
+            for M, n, D in [(M_, n_, D_) for D_ in (15, 31) for M_ in range(1, 13) for n_ in range(1, 13)]:
+                if True:
                     if step == 'year':
                         want = (Y + sign * n, M, D)
                     else:
                         tot = M - 1 + sign * n
                         want = (Y + tot // 12, tot % 12 + 1, D)
+                    if D != 15 and not (_valid({'y': Y, 'm': M, 'd': D}) and _valid({'y': want[0], 'm': want[1], 'd': want[2]})):
+                        continue          # the day does not exist in the start or the target month: the statement says nothing (C01-g)
+                    S = n * (YEAR_SECS if step == 'year' else MONTH_SECS) + 3 * DAY_SECS
+                    r = calc_cell(ctx, op, M, S, D)
+                    cells += 1
+                    if r is None:
+                        classes.setdefault('not-extractable' if D == 15 else 'not-extractable-day-%d' % D, []).append((M, n, None))
+                        continue
+                    if 'panic' in r:
+                        classes.setdefault('panics', []).append((M, n, (r['panic'], D, '')))
+                        continue
+                    got = (r['y'], r['m'], r['d'])
                     if got == want:
                         n_ok += 1
                     elif not (1 <= got[1] <= 12):
@@ -161,6 +208,10 @@ def d1_steps(ctx):
                 if got is None:
                     ctx.finding('D1', 'DateItem::calculate/%s/%s-step/%s' % (op, step, cls),
                                 'DateItem::calculate, %s, %s step: the date handed to the final +/- cannot be evaluated for month %d, count %d (%d of %d cells)' % (op, step, M, n, len(rows), cells), site=b.loc)
+                    continue
+                if cls == 'panics':
+                    ctx.finding('D1', 'DateItem::calculate/%s/%s-step/panics' % (op, step),
+                                'DateItem::calculate, %s, %s step: day %d of month %d %s %d %ss unwinds (%s) in %d of %d cells; the target date exists' % (op, step, got[1], M, '+' if sign > 0 else '-', n, step, got[0], len(rows), cells), site=b.loc)
                     continue
                 ex = 'month %d %s %d %ss -> (year %s, month %s, day %s)' % (M, '+' if sign > 0 else '-', n, step, got[0], got[1], got[2])
                 if len(rows[0]) > 3:
